@@ -214,7 +214,7 @@ def run(chk):
 
     # ------------------------------------------------------------------ R16.4 scaling and names
     scaling(chk, repo, mw, d, eq)
-    chk.floor('R16.1', 5); chk.floor('R16.2', 5); chk.floor('R16.3', 30); chk.floor('R16.4', 8)
+    chk.floor('R16.1', 5); chk.floor('R16.2', 5); chk.floor('R16.3', 30); chk.floor('R16.4', 50)
     chk.assume('radius > thickness > 0, masses > 0')
 
 
@@ -243,28 +243,64 @@ def scaling(chk, repo, mw, d, eq):
             recorded['built'] = (args[0], args[1])
             return Obj(name='newworld', attrs={'name': args[0], 'config': args[1]})
         return NotImplemented
+    mh_ = repo.by_path('TidalPy/structures/layers/helper.py'); fg_ = need_func(mh_, 'find_geometry_from_config')
+    # length keys the layer builder actually reads from a layer configuration (a key nobody reads cannot make the built world wrong)
+    consumed = sorted({c.args[0].value for c in ast.walk(fg_) if isinstance(c, ast.Call) and isinstance(c.func, ast.Attribute) and c.func.attr == 'get' and c.args and isinstance(c.args[0], ast.Constant)} & {'radius', 'thickness', 'radius_inner'})
+    if 'radius' not in consumed:
+        raise AnalysisError('find_geometry_from_config no longer reads config radius: front-end lost sight of the layer geometry keys')
+    # configuration forms a user may write (find_geometry_from_config accepts all of them): radius only / radius and thickness / everything
+    r1 = X.atom('r_core', 'pos'); r2 = X.atom('r_mantle', 'pos'); r3 = X.atom('r_crust', 'pos')
+    forms = {
+        'radius only': lambda: {'Core': {'radius': r1}, 'Mantle': {'radius': r2}, 'Crust': {'radius': r3}},
+        'radius and thickness': lambda: {'Core': {'radius': r1, 'thickness': r1}, 'Mantle': {'radius': r2, 'thickness': r2 - r1}, 'Crust': {'radius': r3, 'thickness': r3 - r2}},
+        'radius, thickness and inner radius': lambda: {'Core': {'radius': r1, 'thickness': r1, 'radius_inner': X.ZERO}, 'Mantle': {'radius': r2, 'thickness': r2 - r1, 'radius_inner': r1},
+                                                       'Crust': {'radius': r3, 'thickness': r3 - r2, 'radius_inner': r2}},
+    }
+    old_len = {'Core': {'radius': r1, 'thickness': r1, 'radius_inner': X.ZERO}, 'Mantle': {'radius': r2, 'thickness': r2 - r1, 'radius_inner': r1},
+               'Crust': {'radius': r3, 'thickness': r3 - r2, 'radius_inner': r2}}
     for big in (True, False):
+      for form, mk_layers in forms.items():
         def branch(itp, st, v, fr, big=big):
             return big          # radius_scale >= 1 ?
         it = Interp(repo, hooks={'global': glob_hook, 'call': call_hook, 'branch': branch}, max_depth=12)
-        r1 = X.atom('r_core', 'pos'); r2 = X.atom('r_mantle', 'pos'); Rw = X.atom('R_world', 'pos')
-        cfg = {'name': 'Xworld', 'radius': Rw, 'type': 'layered', 'layers': {'Core': {'radius': r1, 'thickness': r1, 'density': X.atom('rho1', 'pos')},
-                                                                           'Mantle': {'radius': r2, 'thickness': r2 - r1, 'density': X.atom('rho2', 'pos')}}}
+        Rw = r3
+        layers = mk_layers()
+        for i_, (ln_, ld_) in enumerate(layers.items()):
+            ld_['density'] = X.atom(f'rho{i_}', 'pos')
+        cfg = {'name': 'Xworld', 'radius': Rw, 'type': 'layered', 'layers': layers}
         old = Obj(name='old', attrs={'config': cfg, 'name': 'Xworld'})
-        import copy
         snapshot = repr(cfg)
+        recorded.clear()
         it.call(mw, f_scale, [old], {'radius_scale': s})
         nc = recorded.get('new_config')
         where = mw.where(f_scale)
-        if not isinstance(nc, dict):
+        if not isinstance(nc, dict) or not isinstance(nc.get('layers'), dict):
             raise AnalysisError('scale_from_world: new config not captured')
-        lab = 'scale >= 1' if big else 'scale < 1'
-        eq('R16.4', f'scale_from_world [{lab}]: world radius scaled by the factor', nc['radius'], s * Rw, where)
-        eq('R16.4', f'scale_from_world [{lab}]: core radius scaled', nc['layers']['Core']['radius'], s * r1, where)
-        eq('R16.4', f'scale_from_world [{lab}]: mantle radius scaled', nc['layers']['Mantle']['radius'], s * r2, where)
-        eq('R16.4', f'scale_from_world [{lab}]: mantle inner radius == scaled core radius (contiguous)', X.lift(nc['layers']['Mantle']['radius_inner']), s * r1, where)
-        eq('R16.4', f'scale_from_world [{lab}]: mantle thickness == s (r_mantle - r_core) (volume fractions preserved)', nc['layers']['Mantle']['thickness'], s * (r2 - r1), where)
-        eq('R16.4', f'scale_from_world [{lab}]: core thickness == s r_core', nc['layers']['Core']['thickness'], s * r1, where)
+        lab = ('scale >= 1' if big else 'scale < 1') + f', config gives {form}'
+        eq('R16.4', f'scale_from_world [{lab}]: world radius scaled by the factor', X.lift(nc['radius']), s * Rw, where)
+        # every length the new configuration states is the old length times the factor (a length it does not state is derived when the layers are built)
+        for ln_ in ('Core', 'Mantle', 'Crust'):
+            nl = nc['layers'].get(ln_)
+            if not isinstance(nl, dict):
+                chk.ob('R16.4', f'scale_from_world [{lab}]: layer {ln_} kept', False, 'layer missing from the scaled configuration', where, method='interpretation'); continue
+            for key in consumed:
+                if key in nl and nl[key] is not None:
+                    eq('R16.4', f'scale_from_world [{lab}]: {ln_} {key} stated by the new config == factor x old {key}', X.lift(nl[key]), s * old_len[ln_][key], where)
+        # geometry the builder derives from the new configuration: contiguous, all lengths scaled (=> volume fractions preserved)
+        it_g = Interp(repo)
+        below = None
+        for idx, ln_ in enumerate(('Core', 'Mantle', 'Crust')):
+            nl = nc['layers'].get(ln_)
+            if not isinstance(nl, dict): break
+            try:
+                rad, thick, vol_, mass_, dens_ = it_g.call(mh_, fg_, [dict(nl), idx, idx == 2, X.lift(nc['radius']), None, below])
+            except RaiseSignal:
+                chk.ob('R16.4', f'scale_from_world [{lab}]: geometry of {ln_} can be derived from the new config', False, 'find_geometry_from_config raises for the scaled configuration', where, method='interpretation'); break
+            eq('R16.4', f'scale_from_world [{lab}]: built {ln_} radius == factor x old radius', rad, s * old_len[ln_]['radius'], where)
+            eq('R16.4', f'scale_from_world [{lab}]: built {ln_} inner radius == radius of the layer below (contiguous)', rad - thick, s * old_len[ln_]['radius_inner'], where)
+            eq('R16.4', f'scale_from_world [{lab}]: built {ln_} volume / world volume unchanged (volume fractions preserved)', (rad ** 3 - (rad - thick) ** 3) / X.lift(nc['radius']) ** 3,
+               (old_len[ln_]['radius'] ** 3 - old_len[ln_]['radius_inner'] ** 3) / Rw ** 3, where)
+            below = rad
         chk.ob('R16.4', f'scale_from_world [{lab}]: input world config untouched', repr(cfg) == snapshot, 'old_world.config was modified', where, method='interpretation, object identity')
         nm = recorded.get('new_name')
         chk.ob('R16.4', f'scale_from_world [{lab}]: new name differs from the old name', isinstance(nm, str) and nm != 'Xworld' and 'Xworld' in nm, f'new name {nm!r}', where, method='interpretation')
